@@ -120,7 +120,7 @@ SignatureNamePattern = r"(stage(?P<stage>([0-9]+))\.)?(?P<name>([A-Za-z0-9._-]*[
 StepNamePattern = r"[.A-Za-z0-9_-]+"
 # VV: A reference may have a prefix of N step names and a suffix of M paths each separated with a "/"
 # N must be greater or equal to 1 and M must be greater or equal to 0
-StepNameOrPathPattern = r"[^/:]+"
+StepNameOrPathPattern = r'[^/:<>"]+'
 
 PatternReferenceMethod = f"(:(?P<method>(ref|copy|output|link|extract)))"
 
